@@ -1566,6 +1566,24 @@ impl<T: Storage> Raft<T> {
             return;
         }
 
+        // A node whose own vote is a quorum (the only voter) becomes leader at once, without
+        // the vote request round that otherwise guarantees its log has been persisted.
+        let self_id = self.id;
+        if self.raft_log.persisted < self.raft_log.last_index()
+            && self
+                .prs
+                .conf()
+                .voters()
+                .vote_result(|id| if id == self_id { Some(true) } else { None })
+                == VoteResult::Won
+        {
+            warn!(
+                self.logger,
+                "cannot campaign at term {} since the log is not persisted yet", self.term
+            );
+            return;
+        }
+
         info!(
             self.logger,
             "starting a new election";
